@@ -1,16 +1,18 @@
 (* C06 — entry points of the correspondence driver: kind 6 = emitter-level
    label traces (Spec.v), kind 7 = whole-swarm runs (SpecSwarm.v). *)
 From Coq Require Import List ZArith.
-From Verif Require Import lib.Wire c06.Spec c06.SpecSwarm.
+From Verif Require Import lib.Wire c06.Spec c06.SpecSwarm c06.SpecSw.
 Import ListNotations.
 
 Definition conform_case (t : list Z) : list Z :=
   match t with
   | 7%Z :: _ => conform_swarm t
+  | 8%Z :: _ => conform_sw t
   | _ => conform_emitter t
   end.
 Definition monitor_case (t : list Z) : list Z :=
   match t with
   | 7%Z :: _ => monitor_swarm t
+  | 8%Z :: _ => monitor_sw t
   | _ => monitor_emitter t
   end.
